@@ -431,8 +431,8 @@ PatternBurst, UserKeywords, SignalGroups with `+` lists / annotation block / opt
 ScanChain statements incl. `!` markers, Pattern blocks with labels, W, C, Macro, Ann and Call statements with
 parameter lists) whose tokens are tokens of the grammar (`StilFile.valid`: quoted names without `"` inside, digits,
 version over `[-0-9.]`, parameter values without `;` that do not start with a blank / line end / `/`, skipped regions
-empty) and that the transformer accepts (`StilFile.ok`, part of `valid`), reading the canonical text (every token
-preceded by a blank, a value directly followed by its `;`) gives back exactly `f` — through the scanner with lark's
+well nested with text runs that start at such a character and never follow one another) and that the transformer accepts (`StilFile.ok`, part of `valid`), reading the canonical text (every token
+preceded by a blank, a value directly followed by its `;`, a text run of a skipped region directly by its brace) gives back exactly `f` — through the scanner with lark's
 per-state terminal order (incl. the merged states after a quoted name and after a skipped region), the reader for the
 grammar, and the raise conditions of transformer and `StilFile.__init__`. -/
 theorem stil_text_roundtrip (f : StilFile) (h : f.valid = true) : parseStil (printStil f) = some f := parseStil_print f h
@@ -443,11 +443,12 @@ theorem stil_text_roundtrip_tree (f : StilFile) (h : f.valid = true) : parseTree
 
 private def t (s : String) : Txt := s.toList
 
-/-- two chains with markers and hierarchical cell names, groups with and without annotation block / semicolon, a
-pattern with label, W, C, Macro, Ann and three calls -/
+/-- two chains with markers and hierarchical cell names, groups with and without annotation block / semicolon, nested
+skipped regions with text, a pattern with label, W, C, Macro, Ann and three calls -/
 def exText : StilFile :=
-  { version := t "1.0", headIgn := some [],
-    blocks := [.skip .Header [], .skip .Signals [],
+  { version := t "1.0", headIgn := some [IgnTok.nob (t "Design 2005; ")],
+    blocks := [.skip .Header [.nob (t "Title \"x\"; History "), .opn, .nob (t "Ann "), .opn, .nob (t "* a *"), .cls, .cls],
+      .skip .Signals [.nob (t "\"a0\" In; \"z0\" Out; ")],
       .groups [⟨t "\"_pi\"", t "\"a0\"", [t "\"clk\"", t "\"si0\""], none, true⟩, ⟨t "\"_si\"", t "\"si0\"", [], some [], false⟩,
                ⟨t "\"_po\"", t "\"z0\"", [t "\"so0\""], some [], true⟩, ⟨t "\"all\"", t "\"_pi\"", [t "\"_po\""], none, false⟩],
       .skip .Timing [],
@@ -455,8 +456,8 @@ def exText : StilFile :=
                  .cells [.bang, .cell (t "\"top.f0.SI\""), .bang, .bang, .cell (t "\"f1\"")], .clock (t "\"clk\"")]⟩,
                ⟨t "\"c1\"", [.scanIn (t "\"si1\""), .cells [.cell (t "\"r_reg[3].SI\"")], .scanOut (t "\"so1\"")]⟩],
       .burst (t "\"_burst_\"") [], .skip .Patternexec [], .skip .Procedures [], .skip .Macrodefs [], .ukw (t "abc;"),
-      .pattern (t "\"_pattern_\"") [.w (t "\"_default_WFT_\""), .label (t "\"precondition\""), .c [], .macro_ (t "\"test_setup\""),
-        .ann [], .label (t "\"pattern 0\""), .call (t "\"load_unload\"") [(t "\"si0\"", t "01"), (t "\"si1\"", t "N")],
+      .pattern (t "\"_pattern_\"") [.w (t "\"_default_WFT_\""), .label (t "\"precondition\""), .c [.nob (t "\"_pi\"=\\r4 0 ; ")], .macro_ (t "\"test_setup\""),
+        .ann [.nob (t "* fast_sequential *")], .label (t "\"pattern 0\""), .call (t "\"load_unload\"") [(t "\"si0\"", t "01"), (t "\"si1\"", t "N")],
         .call (t "\"multiclock_capture\"") [(t "\"_pi\"", t "0P1"), (t "\"_po\"", t "LH")],
         .call (t "\"load_unload\"") [(t "\"so0\"", t "L\nH"), (t "\"so1\"", t "X")]]] }
 
